@@ -462,6 +462,18 @@ def _corrupt(node, rng, keys):
             leaves.append((path, "int"))
     walk(node, [], False)
     if not leaves:
+        # fall back to string tokens (families whose observations are opaque tokens)
+        def walk2(x, path, under):
+            if isinstance(x, dict):
+                for k, v in x.items():
+                    walk2(v, path + [k], under or k in keys)
+            elif isinstance(x, list):
+                for i, v in enumerate(x):
+                    walk2(v, path + [i], under)
+            elif under and isinstance(x, str):
+                leaves.append((path, "str"))
+        walk2(node, [], False)
+    if not leaves:
         return None
     path, kind = leaves[rng.randrange(len(leaves))]
     cur = node
@@ -469,6 +481,8 @@ def _corrupt(node, rng, keys):
         cur = cur[k]
     if kind == "bool":
         cur[path[-1]] = not cur[path[-1]]
+    elif kind == "str":
+        cur[path[-1]] = cur[path[-1]] + "~"
     elif kind == "strlist":
         cur[path[-1]] = cur[path[-1]][1:]          # drop one element of an observed set
     else:
